@@ -6,6 +6,8 @@ import (
 	"context"
 	"encoding/json"
 	"fmt"
+	"math"
+	"math/rand"
 	"os"
 	"reflect"
 	"strings"
@@ -57,6 +59,8 @@ type input struct {
 	Stop    *int         `json:"stop,omitempty"`
 	Start   S            `json:"start,omitempty"`
 	Method  string       `json:"method,omitempty"`
+	// CtxDone: every call of the history is made with a context that is already cancelled
+	CtxDone bool `json:"ctx_done,omitempty"`
 }
 
 func (p policy) coq() string {
@@ -102,6 +106,37 @@ func (p policy) wrap(r ociregistry.Interface, policyCalls *int) ociregistry.Inte
 		}
 		return def
 	})
+}
+
+// answer is the policy's answer for (repo, kind): refused or not.
+func (p policy) answer(repo S, kind int) bool {
+	if p.Wrapper == "select" {
+		for _, n := range p.Names {
+			if n.Repo == repo {
+				return !n.Allow
+			}
+		}
+		return !p.AllowDefault
+	}
+	for _, r := range p.Rules {
+		if r.Repo == repo && r.Kind == kind {
+			return r.Err != nil
+		}
+	}
+	return p.Default != nil
+}
+
+// refuses: does the policy refuse an access op needs (used to label outcomes only).
+func (p policy) refuses(op filt.Op) bool {
+	switch {
+	case op.IsWriterOp():
+		return false
+	case op.M == "MountBlob":
+		return p.answer(op.Repo, 0) || p.answer(op.Repo2, 1)
+	case op.M == "Repositories":
+		return p.Wrapper == "check" && p.answer("*", 3)
+	}
+	return p.answer(op.Repo, kindOf(op.M))
 }
 
 var errCodes = []string{"BLOB_UNKNOWN", "MANIFEST_UNKNOWN", "NAME_UNKNOWN", "DENIED", "UNAUTHORIZED", "", "TOOMANYREQUESTS", "MY_CODE"}
@@ -172,6 +207,11 @@ type observed struct {
 
 func runHist(in input) (string, observed) {
 	ctx := context.Background()
+	if in.CtxDone {
+		c, cancel := context.WithCancel(ctx)
+		cancel()
+		ctx = c
+	}
 	b := &filt.Backend{}
 	b.Answer = in.Backend.answer(b)
 	var pc int
@@ -191,7 +231,7 @@ func runHist(in input) (string, observed) {
 		terms = append(terms, "("+res.Coq()+", "+hx.List(cs)+")")
 	}
 	obs.PolicyCalls, obs.BackendCalls = pc, len(b.Calls)
-	return fmt.Sprintf("CHist %s %s %s", in.Policy.coq(), filt.OpsCoq(in.Hist), hx.List(terms)), obs
+	return fmt.Sprintf("CHist %s %s %s %s", hx.Bool(in.CtxDone), in.Policy.coq(), filt.OpsCoq(in.Hist), hx.List(terms)), obs
 }
 
 func runSeq(in input) (string, observed) {
@@ -277,6 +317,167 @@ func sampleOp(m string, repo, repo2 string) filt.Op {
 	return op
 }
 
+// ---- argument pools: the values of the non-repository parameters ----
+//
+// Every parameter of every method has a pool: the value of sampleOp, Go's zero value, and
+// the boundary / odd values a caller can legitimately or illegitimately pass. variants
+// returns the complete product of the pools of a method's parameters.
+
+const sampleDigest = S("sha256:ffffffffffffffffffffffffffffffffffffffffffffffffffffffffffffffff")
+
+var (
+	digestPool = []S{sampleDigest, "", "sha256:", S("sha512:" + strings.Repeat("0", 128)), "not-a-digest",
+		S("SHA256:" + strings.Repeat("F", 64))}
+	tagPool   = []S{"sometag", "", "latest", sampleDigest, S(strings.Repeat("t", 129)), "a tag\n"}
+	idPool    = []S{"/someid", "", "0", "../../other/r/upload", S(strings.Repeat("i", 200))}
+	offPool   = []int64{3, 0, -1, 1, math.MaxInt64, math.MinInt64}
+	rangePool = []int64{3, 17, 0, -1, 1, math.MaxInt64}
+	hintPool  = []int64{5, 0, -1, 1, math.MaxInt32, math.MaxInt64}
+	startPool = []S{"start/after", "", "*", "foo/r", S(strings.Repeat("z", 300))}
+	artPool   = []S{"some/artifact", "", "*"}
+	mediaPool = []S{"application/json", "", "application/vnd.oci.image.manifest.v1+json"}
+	bodyPool  = []S{"something", "", "{}"}
+	// PushBlob: descriptor and content together (sizes that agree, disagree, are zero,
+	// negative, huge; missing digest / media type; the zero descriptor)
+	blobPool = []struct {
+		d *filt.Desc
+		c S
+	}{
+		{&filt.Desc{Media: "application/json", Digest: sampleDigest, Size: 3}, "foo"},
+		{nil, ""},
+		{nil, "foo"},
+		{&filt.Desc{Media: "application/json", Digest: sampleDigest, Size: 0}, ""},
+		{&filt.Desc{Media: "application/json", Digest: sampleDigest, Size: -1}, "foo"},
+		{&filt.Desc{Media: "application/json", Digest: sampleDigest, Size: 100}, "foo"},
+		{&filt.Desc{Media: "application/json", Digest: sampleDigest, Size: math.MaxInt64}, ""},
+		{&filt.Desc{Media: "application/json", Size: 3}, "foo"},
+		{&filt.Desc{Digest: sampleDigest, Size: 3}, "foo"},
+		{&filt.Desc{Media: "application/json", Digest: sampleDigest, Size: 3, Artifact: "some/artifact"}, "foo"},
+	}
+	// repository names: valid, the literal star, and names no registry would accept (a
+	// rejection is the policy's business whatever the name looks like)
+	repoPool = []S{"foo/r", "", "*", "Foo/R", "foo/r/", "/foo/r", "foo//r", "../etc", "foo/r\x00", "foo r",
+		S(strings.Repeat("n", 300)), sampleDigest}
+	mountPool = []S{"src/r", "dst/r", "", "*", "Foo/R", "../etc", S(strings.Repeat("n", 300))}
+)
+
+// variants lists m on (repo, repo2) with every combination of the pool values of its other
+// parameters; the first one is sampleOp's.
+func variants(m string, repo, repo2 S) []filt.Op {
+	base := filt.Op{M: m, Repo: repo}
+	var out []filt.Op
+	switch m {
+	case "GetBlob", "GetManifest", "ResolveBlob", "ResolveManifest", "DeleteBlob", "DeleteManifest":
+		for _, dg := range digestPool {
+			o := base
+			o.Digest = dg
+			out = append(out, o)
+		}
+	case "GetBlobRange":
+		for _, dg := range digestPool {
+			for _, o0 := range rangePool {
+				for _, o1 := range rangePool {
+					o := base
+					o.Digest, o.O0, o.O1 = dg, o0, o1
+					out = append(out, o)
+				}
+			}
+		}
+		// sampleOp's first
+		out[0], out[1] = out[1], out[0]
+	case "GetTag", "ResolveTag", "DeleteTag":
+		for _, tg := range tagPool {
+			o := base
+			o.Tag = tg
+			out = append(out, o)
+		}
+	case "PushBlob":
+		for _, b := range blobPool {
+			o := base
+			o.Desc, o.Content = b.d, b.c
+			out = append(out, o)
+		}
+	case "PushBlobChunked":
+		for _, h := range hintPool {
+			o := base
+			o.Hint = h
+			out = append(out, o)
+		}
+		o := base
+		o.Hint = 11
+		out = append([]filt.Op{o}, out...)
+	case "PushBlobChunkedResume":
+		for _, id := range idPool {
+			for _, off := range offPool {
+				for _, h := range hintPool {
+					o := base
+					o.ID, o.Off, o.Hint = id, off, h
+					out = append(out, o)
+				}
+			}
+		}
+	case "MountBlob":
+		for _, dg := range digestPool {
+			o := base
+			o.Repo2, o.Digest = repo2, dg
+			out = append(out, o)
+		}
+	case "PushManifest":
+		for _, tg := range tagPool {
+			for _, c := range bodyPool {
+				for _, mt := range mediaPool {
+					o := base
+					o.Tag, o.Content, o.Media = tg, c, mt
+					out = append(out, o)
+				}
+			}
+		}
+	case "Repositories":
+		for _, st := range startPool {
+			out = append(out, filt.Op{M: m, Start: st})
+		}
+	case "Tags":
+		for _, st := range startPool {
+			o := base
+			o.Start = st
+			out = append(out, o)
+		}
+		out[0].Start = "starttag"
+	case "Referrers":
+		for _, dg := range digestPool {
+			for _, a := range artPool {
+				o := base
+				o.Digest, o.Art = dg, a
+				out = append(out, o)
+			}
+		}
+	default:
+		panic("variants: " + m)
+	}
+	return out
+}
+
+// kindOf is the access kind the method needs on its repository (MountBlob: on its target).
+func kindOf(m string) int {
+	switch m {
+	case "GetBlob", "GetBlobRange", "GetManifest", "GetTag", "ResolveBlob", "ResolveManifest", "ResolveTag":
+		return 0
+	case "PushBlob", "PushBlobChunked", "PushBlobChunkedResume", "MountBlob", "PushManifest":
+		return 1
+	case "DeleteBlob", "DeleteManifest", "DeleteTag":
+		return 2
+	}
+	return 3
+}
+
+func randOp(rnd *rand.Rand, m string, repo, repo2 S) filt.Op {
+	if rnd.Intn(3) == 0 {
+		return sampleOp(m, string(repo), string(repo2))
+	}
+	vs := variants(m, repo, repo2)
+	return vs[rnd.Intn(len(vs))]
+}
+
 func runCase(in input) (string, observed) {
 	switch in.Kind {
 	case "hist":
@@ -297,9 +498,13 @@ func outcomeKind(in input, obs observed) string {
 		return "promoted"
 	}
 	k := "passed"
-	for _, o := range obs.Ops {
+	for i, o := range obs.Ops {
 		if o.Res.Kind == "panic" {
 			return "panic"
+		}
+		if i < len(in.Hist) && len(o.Calls) > 0 && in.Policy.refuses(in.Hist[i]) {
+			// only a label for grouping the replays; the verdict is Coq's
+			return "reached-backend-though-refused"
 		}
 		if len(o.Calls) == 0 {
 			k = "stopped"
@@ -382,6 +587,9 @@ func main() {
 		switch variant {
 		case 0:
 			ops = append(ops, filt.Op{M: "WCommit", Digest: "sha256:0000000000000000000000000000000000000000000000000000000000000000"})
+		case 3:
+			// nothing written, committed without a digest
+			ops = []filt.Op{{M: "WWrite"}, {M: "WSize"}, {M: "WCommit"}}
 		case 1:
 			ops = append(ops, filt.Op{M: "WClose"})
 		default:
@@ -481,6 +689,142 @@ func main() {
 			}
 		}
 	}
+	// ---- argument values: every method with every combination of the pool values of its
+	// non-repository parameters (the zero values among them), the repository rejected for
+	// exactly the kind the method needs / for every other kind / for all / for none, and
+	// through Select rejected / allowed. What the wrapper does must depend on the policy's
+	// answer alone, whatever the other arguments are. ----
+	polsFor := func(repo string, k int) []policy {
+		var ps []policy
+		for _, mask := range []int{1 << k, 0, 15 ^ (1 << k), 15} {
+			ps = append(ps, policy{Wrapper: "check", Rules: rulesFor(repo, mask)})
+		}
+		for _, allow := range []bool{false, true} {
+			ps = append(ps, policy{Wrapper: "select", Names: []nameRule{{S(repo), allow}}, AllowDefault: !allow})
+		}
+		return ps
+	}
+	mountPols := func(src, dst string) []policy {
+		var ps []policy
+		for _, mf := range []int{1, 0} {
+			for _, mt := range []int{2, 0} {
+				rs := append(rulesFor(src, mf), rulesFor(dst, mt)...)
+				if src == dst {
+					rs = rulesFor(src, mf|mt)
+				}
+				ps = append(ps, policy{Wrapper: "check", Rules: rs})
+			}
+		}
+		for _, af := range []bool{false, true} {
+			for _, at := range []bool{false, true} {
+				if src == dst && af != at {
+					continue
+				}
+				ps = append(ps, policy{Wrapper: "select", Names: []nameRule{{S(src), af}, {S(dst), at}}, AllowDefault: !af})
+			}
+		}
+		return ps
+	}
+	// the policies for op: those of its repository (of "*" for Repositories), or of a mount
+	polsOf := func(op filt.Op) []policy {
+		switch op.M {
+		case "MountBlob":
+			return mountPols(string(op.Repo), string(op.Repo2))
+		case "Repositories":
+			return polsFor("*", 3)
+		}
+		return polsFor(string(op.Repo), kindOf(op.M))
+	}
+	zeroOp := func(m string, repo, repo2 S) filt.Op {
+		switch m {
+		case "Repositories":
+			return filt.Op{M: m}
+		case "MountBlob":
+			return filt.Op{M: m, Repo: repo, Repo2: repo2}
+		}
+		return filt.Op{M: m, Repo: repo}
+	}
+	for _, m := range filt.Methods {
+		for i, op := range variants(m, "foo/r", "dst/r") {
+			for _, p := range polsOf(op) {
+				for _, fail := range []bool{false, true} {
+					if fail && i >= 8 {
+						continue
+					}
+					add(input{Kind: "hist", Policy: p, Hist: []filt.Op{op}, Backend: backendCfg{Fail: fail, List: listing}}, "args")
+				}
+			}
+		}
+	}
+	// ---- repository names: every method on every name of the pool (the empty name, the
+	// star, names no registry accepts), with the sample arguments and with all-zero
+	// arguments; a mount between every two names of its pool ----
+	for _, m := range filt.Methods {
+		var ops []filt.Op
+		switch m {
+		case "Repositories":
+			continue
+		case "MountBlob":
+			for _, src := range mountPool {
+				for _, dst := range mountPool {
+					ops = append(ops, sampleOp(m, string(src), string(dst)), zeroOp(m, src, dst))
+				}
+			}
+		default:
+			for _, repo := range repoPool {
+				ops = append(ops, sampleOp(m, string(repo), ""), zeroOp(m, repo, ""))
+			}
+		}
+		for _, op := range ops {
+			for _, p := range polsOf(op) {
+				add(input{Kind: "hist", Policy: p, Hist: []filt.Op{op}, Backend: backendCfg{List: listing}}, "names")
+			}
+		}
+	}
+	// ---- a context that is already cancelled: the policy still decides, an allowed call
+	// still reaches the wrapped registry (which answers it as it answers any other) ----
+	for _, m := range filt.Methods {
+		for _, op := range []filt.Op{sampleOp(m, "foo/r", "dst/r"), zeroOp(m, "foo/r", "dst/r")} {
+			for _, p := range polsOf(op) {
+				for _, fail := range []bool{false, true} {
+					add(input{Kind: "hist", Policy: p, Hist: []filt.Op{op}, Backend: backendCfg{Fail: fail, List: listing}, CtxDone: true}, "ctx")
+				}
+			}
+		}
+	}
+	// ---- BlobWriter use after a chunked upload started with boundary arguments (one
+	// parameter away from the sample, and all zero) ----
+	for _, m := range []string{"PushBlobChunked", "PushBlobChunkedResume"} {
+		s0 := sampleOp(m, "foo/r", "")
+		ops := []filt.Op{zeroOp(m, "foo/r", "")}
+		for _, op := range variants(m, "foo/r", "") {
+			diff := 0
+			if op.ID != s0.ID {
+				diff++
+			}
+			if op.Off != s0.Off {
+				diff++
+			}
+			if op.Hint != s0.Hint {
+				diff++
+			}
+			if diff == 1 {
+				ops = append(ops, op)
+			}
+		}
+		for _, op := range ops {
+			for variant := 0; variant < 4; variant++ {
+				h := withWriterUse([]filt.Op{op}, variant)
+				for _, cd := range []bool{false, true} {
+					if cd && variant != 0 {
+						continue
+					}
+					add(input{Kind: "hist", Policy: policy{Wrapper: "check", Rules: rulesFor("foo/r", 13)}, Hist: h, Backend: backendCfg{List: listing}, CtxDone: cd}, "writer")
+					add(input{Kind: "hist", Policy: policy{Wrapper: "select", Names: []nameRule{{"foo/r", true}}}, Hist: h, Backend: backendCfg{List: listing}, CtxDone: cd}, "writer")
+				}
+			}
+		}
+	}
 	// promoted methods of the embedded Funcs
 	for _, m := range filt.Methods {
 		add(input{Kind: "promoted", Policy: policy{Wrapper: "check"}, Method: m}, "promoted")
@@ -488,7 +832,7 @@ func main() {
 	}
 
 	// ---- random histories over a few names with random policies ----
-	names := []string{"foo/r", "bar", "a/b/c", "*", "zed", "Foo/R"}
+	names := []string{"foo/r", "bar", "a/b/c", "*", "zed", "Foo/R", ""}
 	randPolicy := func() policy {
 		if rnd.Intn(2) == 0 {
 			p := policy{Wrapper: "select", AllowDefault: rnd.Intn(2) == 0}
@@ -515,7 +859,7 @@ func main() {
 		}
 		return p
 	}
-	nh := 150
+	nh := 400
 	nseq := 300
 	if cfg.Thorough() {
 		nh, nseq = 6000, 12000
@@ -525,7 +869,7 @@ func main() {
 		writers := 0
 		for n := 1 + rnd.Intn(5); n > 0; n-- {
 			m := filt.Methods[rnd.Intn(len(filt.Methods))]
-			h = append(h, sampleOp(m, names[rnd.Intn(len(names))], names[rnd.Intn(len(names))]))
+			h = append(h, randOp(rnd, m, S(names[rnd.Intn(len(names))]), S(names[rnd.Intn(len(names))])))
 		}
 		_ = writers
 		var l []S
@@ -540,11 +884,11 @@ func main() {
 		}
 		// a PushBlobChunked* in a random history hands out a writer only when allowed; its use
 		// is covered by the enumeration above, so here the writers are left alone
-		add(input{Kind: "hist", Policy: randPolicy(), Hist: h, Backend: bc}, "random")
+		add(input{Kind: "hist", Policy: randPolicy(), Hist: h, Backend: bc, CtxDone: rnd.Intn(5) == 0}, "random")
 	}
 	// ---- listings yield by yield: random contents, random policies, errors anywhere,
 	// consumers that stop anywhere ----
-	pool := []string{"foo/r", "bar", "a/b/c", "zed", "Foo/R", "m", "n/o", "p", "q/r/s", "t"}
+	pool := []string{"foo/r", "bar", "a/b/c", "zed", "Foo/R", "m", "n/o", "p", "q/r/s", "t", "", "*", "../etc"}
 	for i := 0; i < nseq; i++ {
 		var evs []filt.Yield
 		for n := rnd.Intn(9); n > 0; n-- {
@@ -580,7 +924,7 @@ func main() {
 				}
 			}
 		}
-		in := input{Kind: "seq", Policy: p, Events: evs, Start: S(strings.Repeat("s", rnd.Intn(2)))}
+		in := input{Kind: "seq", Policy: p, Events: evs, Start: startPool[rnd.Intn(len(startPool))]}
 		if rnd.Intn(3) > 0 {
 			k := rnd.Intn(len(evs) + 2)
 			in.Stop = &k
